@@ -94,6 +94,54 @@ def _dump_one(repo, crate, pkg, out_path, release):
     os.replace(tmp, out_path)
 
 
+def workspace_packages(repo):
+    """Names of the packages that live in the tree (root package and path members)."""
+    import re
+    names = set()
+    for dp, dn, fn in os.walk(repo):
+        dn[:] = [d for d in dn if d not in ('target', '.git', 'node_modules')]
+        if dp[len(repo):].count(os.sep) > 2:
+            dn[:] = []
+        if 'Cargo.toml' in fn:
+            try:
+                txt = open(os.path.join(dp, 'Cargo.toml')).read()
+            except OSError:
+                continue
+            m = re.search(r'(?ms)^\[package\].*?^name\s*=\s*"([^"]+)"', txt)
+            if m:
+                names.add(m.group(1))
+    return names
+
+
+def _invalidate_workspace_units(repo):
+    """cargo decides the freshness of a path package by comparing source mtimes with the artifact, and
+    the artifact name of a workspace member does not depend on where the workspace lies.  A tree that
+    was evaluated before (a mutant whose patched file is *newer* than the sources of the next tree,
+    which keep their old mtimes) would therefore leave a stale `liblocustdb_serialization-*.rmeta`
+    behind, and the next tree would be compiled against it.  The fingerprints of the tree's own
+    packages are removed before every dump, so they are always rebuilt from the tree being analysed."""
+    import re
+    names = workspace_packages(repo)
+    for prof in os.listdir(TARGET) if os.path.isdir(TARGET) else []:
+        fp = os.path.join(TARGET, prof, '.fingerprint')
+        if not os.path.isdir(fp):
+            continue
+        for d in os.listdir(fp):
+            m = re.match(r'^(.*)-[0-9a-f]{16}$', d)
+            if m and m.group(1) in names:
+                shutil.rmtree(os.path.join(fp, d), ignore_errors=True)
+        deps = os.path.join(TARGET, prof, 'deps')
+        if os.path.isdir(deps):
+            under = {n.replace('-', '_') for n in names}
+            for f in os.listdir(deps):
+                m = re.match(r'^(?:lib)?(.*)-[0-9a-f]{16}\.(d|rmeta|rlib)$', f)
+                if m and m.group(1) in under and f.endswith('.d'):
+                    try:
+                        os.unlink(os.path.join(deps, f))
+                    except OSError:
+                        pass
+
+
 def facts_dir(repo=None, release=False):
     """Ensure facts for the current tree exist; returns the directory."""
     repo = repo or REPO
@@ -112,6 +160,7 @@ def facts_dir(repo=None, release=False):
         os.makedirs(d, exist_ok=True)
         t0 = time.time()
         crates = CRATES if not release else CRATES[:1]
+        _invalidate_workspace_units(repo)
         for crate, pkg in crates:
             _dump_one(repo, crate, pkg, os.path.join(d, crate + '.mir'), release)
         with open(marker, 'w') as f:
